@@ -12,6 +12,7 @@
    working tree implements is observed by the harness (correspondence), not assumed.  A third defect found by the
    search (Gamma(0.01) draw underflowing to alpha = 0.0 on a tree without clones, fixed in 322b9c9) is a floating-point
    event outside this model. *)
+From PV Require Import Model.Grammar Model.Proposals Model.Csmc Proofs.GrammarTable Proofs.PgAssembly Proofs.GrammarPG.
 From PV Require Import Model.RunDriver Proofs.RunDriverProofs.
 Open Scope nat_scope.
 
@@ -26,6 +27,20 @@ Theorem C19_driver_total :
              = Some tr /\ Forall (fun e => good (e_tree e)) tr.
 Proof. exact driver_total. Qed.
 Print Assumptions C19_driver_total.
+
+(* the whole-tree particle-Gibbs kernel satisfies the totality premise above: over the real placement grammar, from every
+   clone forest the update returns a tree with probability one (no mass is lost on any path: the model has no step at
+   which the sampler can fail), for every proposal that is positive with unit mass over all_places and every positive target *)
+Theorem C19_pg_update_total_over_grammar :
+  forall (n : nat) (on : bool) (gam : list (list bool) -> Qc) (qp : list nat -> list place -> place -> Qc)
+         (g : list nat -> list place -> Qc) (rs : @swarm place -> bool) (N : nat) (ops : list op),
+    S (count_upd ops) = n ->
+    (forall sg p a, (0 < qp sg p a)%Qc) -> (forall sg p, (0 < g sg p)%Qc) ->
+    (forall sg p, sumq (map (qp sg p) (gsup on sg p)) = 1%Qc) ->
+    forall t, In t (forests n on) ->
+      mass (pg_update (gorders n) (gcden n) (gsup on) qp g (gdec n) (genc n on) rs N ops t) = 1%Qc.
+Proof. exact pg_update_mass_grammar. Qed.
+Print Assumptions C19_pg_update_total_over_grammar.
 
 Theorem C19_trace_iterations :
   forall (T R : Type) (burn pg subtree dp prg : kernel T R) relabel coin conc
